@@ -1069,6 +1069,41 @@ RFC_CORNERS = [
     ("single-string-for-list", b'if exists "X" { keep; }'),
     ("crlf-line-endings", b'if true {\r\n  keep;\r\n}\r\n'),
     ("crlf-inside-multi-line", b'redirect text:\r\nuser@example.org\r\n.\r\n;'),
+    # example scripts of the RFCs (typed in from the documents; the reference drops what it does not call valid)
+    ("rfc5228-9-example", b'#\n# Example Sieve Filter\n# Declare any optional features or extension used by the script\n#\nrequire ["fileinto"];\n\n'
+                          b'#\n# Handle messages from known mailing lists\n# Move messages from IETF filter discussion list to filter mailbox\n#\n'
+                          b'if header :is "Sender" "owner-ietf-mta-filters@imc.org"\n        {\n        fileinto "filter";  # move to "filter" mailbox\n        }\n'
+                          b'#\n# Keep all messages to or from people in my company\n#\nelsif address :DOMAIN :is ["From", "To"] "example.com"\n        {\n'
+                          b'        keep;               # keep in "In" mailbox\n        }\n\n#\n# Try and catch unsolicited email.  If a message is not to me,\n'
+                          b'# or it contains a subject known to be spam, file it away.\n#\nelsif anyof (NOT address :all :contains\n'
+                          b'               ["To", "Cc", "Bcc"] "me@example.com",\n             header :matches "subject"\n'
+                          b'               ["*make*money*fast*", "*university*dipl*mas*"])\n        {\n        fileinto "spam";   # move to "spam" mailbox\n        }\n'
+                          b'else\n        {\n        # Move all other (non-company) mail to "personal"\n        # mailbox.\n        fileinto "personal";\n        }\n'),
+    ("rfc5228-size-and-discard", b'if size :over 100k { # this is a comment\n   discard;\n}\n'),
+    ("rfc5228-bracket-comment", b'if size :over 100K { /* this is a comment\n   this is still a comment */ discard /* this is a comment\n   */ ;\n}\n'),
+    ("rfc5228-header-list", b'if header :contains ["From", "To"] ["me@example.com", "me00@landru.example.com"] { keep; }'),
+    ("rfc5228-exists", b'if not exists ["From","Date"] {\n   discard;\n}\n'),
+    ("rfc5228-redirect", b'redirect "bart@example.com";'),
+    ("rfc5228-stop", b'if header :contains "from" "coyote" {\n   discard;\n} elsif header :contains ["subject"] ["$$$"] {\n   discard;\n} else {\n   stop;\n}\n'),
+    ("rfc5228-envelope", b'require "envelope";\nif envelope :all :is "from" "tim@example.com" {\n   discard;\n}\n'),
+    ("rfc5228-address-localpart", b'if address :localpart :is "from" "tim" { keep; }'),
+    ("rfc5228-reject-multiline", b'require ["reject"];\nif size :over 100K {\n    reject text:\nYour message is too big.  If you want to send me a big attachment,\nput it on a public web site and send me a URL.\n.\n;\n}\n'),
+    ("rfc5230-vacation-1", b'require "vacation";\nif header :contains "subject" "cyrus" {\n    vacation "I\'m out -- send mail to cyrus-bugs";\n} else {\n    vacation "I\'m out -- call me at +1 304 555 0123";\n}\n'),
+    ("rfc5230-vacation-days-subject", b'require "vacation";\nvacation :days 23 :addresses ["tjs@example.edu",\n                                  "ts4z@landru.example.edu"]\n"I\'m away until October 19.\nIf it\'s an emergency, call 911, I guess." ;\n'),
+    ("rfc5230-vacation-mime", b'require "vacation";\nvacation :mime text:\nContent-Type: multipart/alternative; boundary=foo\n\n--foo\n\nI\'m at the beach relaxing.  Mmmm, surf...\n\n--foo--\n.\n;\n'),
+    ("rfc5230-vacation-handle", b'require "vacation";\nvacation :handle "ran-away" "I\'m out";\n'),
+    ("rfc6131-vacation-seconds", b'require ["vacation-seconds"];\nvacation :addresses ["tjs@example.edu", "ts4z@landru.example.edu"]\n         :seconds 1800\n         "I am in a meeting, and do not have access to email.";\n'),
+    ("rfc5232-imap4flags", b'require ["fileinto", "imap4flags"];\nif size :over 500K {\n    setflag "\\\\Deleted";\n}\nif header :contains "from" "boss@frobnitzm.example.edu" {\n    setflag "\\\\Flagged";\n    fileinto "INBOX.From Boss";\n}\n'),
+    ("rfc5232-keep-flags", b'require ["imap4flags"];\nif header :contains "Disposition-Notification-To" "mel@example.com" {\n    keep :flags "$MDNRequired";\n}\n'),
+    ("rfc5232-fileinto-flags", b'require ["fileinto", "imap4flags"];\nfileinto :flags "\\\\Deleted" "INBOX.From Boss";\n'),
+    ("rfc5232-hasflag", b'require ["imap4flags"];\nif hasflag :contains "MyVar" "Junk" {\n    discard;\n    stop;\n}\n'),
+    ("rfc5173-body", b'require ["body", "fileinto"];\nif body :raw :contains "MAKE MONEY FAST" {\n        discard;\n}\nif body :content "text" :contains ["missile", "coordinates"] {\n        fileinto "secrets";\n}\nif body :text :contains "project schedule" {\n        fileinto "project/schedule";\n}\n'),
+    ("rfc3894-copy", b'require ["copy", "fileinto"];\nif header :contains "Subject" "MAKE MONEY FAST" {\n    redirect :copy "postmaster@example.com";\n    discard;\n}\nfileinto :copy "incoming";\n'),
+    ("rfc5490-mailbox-create", b'require ["fileinto", "mailbox"];\nfileinto :create "Partners";\n'),
+    ("rfc5231-relational-count", b'require ["relational", "comparator-i;ascii-numeric"];\nif header :count "ge" :comparator "i;ascii-numeric" ["to", "cc"] ["3"] { discard; }'),
+    ("rfc5231-relational-value", b'require ["relational"];\nif header :value "lt" ["x-priority"] ["3"] { keep; }'),
+    ("rfc5260-currentdate", b'require ["date", "relational", "vacation"];\nif allof(currentdate :value "ge" "date" "2007-06-30",\n         currentdate :value "le" "date" "2007-07-07")\n{ vacation :days 7  "I\'m away during the first week in July."; }\n'),
+    ("rfc5260-currentdate-zone", b'require ["date", "relational", "fileinto"];\nif anyof(currentdate :is "weekday" "0", currentdate :zone "-0800" :is "weekday" "6")\n{ fileinto "weekend"; }\n'),
 ]
 
 
